@@ -101,12 +101,13 @@ Proof. intros IHg Hw Hp. rewrite walk_node_eq, wn_funccall in Hw. rewrite py_nod
     destruct (args_agree a al avals) as [HA HL].
     { intros ad acs z Ha Hz. apply (IHg ad acs z); [right; left; exact Ha|exact Hz]. }
     { exact WA. } { exact PA. }
+    destruct (is_dunder m); [discriminate Hw|].
     rewrite <- HL in Pl. destruct (plain_call _ _ _ _ _ Pl Hw) as [i [me ->]].
     assert (Hs : E selfe = Some selfv). { apply (IHg cd [o; LTok (TName m)] o); [left; reflexivity|left; reflexivity|exact Wo|exact Po]. }
     rewrite (eval_EOp _ _ _ _ _ _ _ (selfv :: avals)); [|simpl; rewrite Hs, HA; reflexivity].
     unfold eval_op. rewrite Nb. exact Hp.
   - (* function call *)
-    destruct (cd ==s "var") eqn:Ev; [|discriminate Hp].
+    destruct (cd ==s "var") eqn:Ev; [|discriminate Hp]. cbn [negb] in Hw.
     destruct ccs as [|h [|y ccs]]; try discriminate Hp.
     2:{ destruct h as [[f| | | | |]| |]; discriminate Hp. }
     destruct h as [[f| | | | |]| |]; try discriminate Hp.
